@@ -134,7 +134,7 @@ func init() {
 					x := g.Struct(k, 5+idx%3, true)
 					roundTrip(c, "gob", vmodel.Exact, gobPairs, x, fmt.Sprintf("deep %s depth<=%d", k.Name, 5+idx%3), nil)
 				}},
-				{Name: "random", N: tierN(tier, 10000, 60000), Run: func(c *Ctx, idx int) {
+				{Name: "random", N: tierN(tier, 10000, 24000), Run: func(c *Ctx, idx int) {
 					g := exactGen(c, false, idx)
 					x, label := randomValue(g, tierN(tier, 2, 3))
 					c.Count("random-kind:"+kindOf(x), 1)
@@ -143,7 +143,7 @@ func init() {
 			}
 		},
 		Floors: func(tier string) map[string]int64 {
-			return map[string]int64{"roundtrips": int64(tierN(tier, 50000, 300000))}
+			return map[string]int64{"roundtrips": int64(tierN(tier, 50000, 250000))}
 		},
 		Assumptions: []string{
 			"the canonical form in mode exact applies only the unset/empty normal form; instants are compared as UTC instants to the nanosecond",
